@@ -183,6 +183,9 @@ func init() {
 
 // wave 9 (second held-out wave; additions made after the measurement)
 var addedRulesW9 = map[string]string{
+	"C12": " In signed mode two thirds of the good query tokens lapse within 30-60 s; after the first download time passes until the token is 65-180 s beyond its expiry and the same or another signed-in session presents it again: no file.",
+	"C17": " 1 tunnel in 5 sends a second handshake request right behind the first (same or other capabilities, another version): it is never answered with success.",
+	"C20": " Further KDC behaviour 'reply-pieces': a complete, timely reply that travels in 2-4 TCP segments 1-300 ms apart, the first ending inside the length prefix, right behind it or anywhere in the body; it counts as an answering KDC.",
 	"C05": " One request kind (openid and local both enabled): somebody who has just signed in at the web front end presents the browser's session cookie next to Basic credentials (wrong, empty, another user's, or correct password): only the password decides.",
 	"C07": " 1 run in 8 (no other special situation) starts after somebody else asked 17-40 times for an allowed machine that is down (every attempt answered with an error); the run's tunnels to healthy hosts must be unaffected.",
 }
